@@ -92,6 +92,7 @@ _ERR_KINDS = [
     (re.compile(r"Error: Invariant (\w+) is violated"), "invariant"),
     (re.compile(r"Error: Action property (\w+) is violated"), "action_property"),
     (re.compile(r"Error: Temporal properties were violated"), "liveness"),
+    (re.compile(r"Error: Temporal property (\w+) was violated"), "liveness"),
     (re.compile(r"Error: Deadlock reached"), "deadlock"),
     (re.compile(r"Error: The postcondition (\w*)"), "postcondition"),
     (re.compile(r"Error: Assumption .* is false"), "assumption"),
